@@ -1316,7 +1316,19 @@ class SQLModel:
             }
         else:
             subsql.terms = []
+        self._restrict_declared_term_dependencies(subsql)
         return subsql
+
+    # noinspection PyMethodMayBeStatic
+    def _restrict_declared_term_dependencies(self, subsql) -> None:
+        """
+        Keep a step's declared term dependencies in step with its (narrowed) terms. Internal method.
+        """
+        deps = getattr(subsql, "declared_term_dependencies", None)
+        if (deps is not None) and isinstance(subsql.terms, dict):
+            subsql.declared_term_dependencies = {
+                k: v for (k, v) in deps.items() if k in subsql.terms
+            }
 
     def drop_columns_to_near_sql(
         self,
@@ -1347,6 +1359,7 @@ class SQLModel:
             for k in using
             if k not in drop_columns_node.column_deletions
         }
+        self._restrict_declared_term_dependencies(subsql)
         return subsql
 
     def order_to_near_sql(
